@@ -62,6 +62,16 @@ func aArr(elems ...argVal) argVal {
 	return argVal{Text: "[" + strings.Join(parts, ", ") + "]", Kind: "arr", Elems: elems}
 }
 
+// viaCall spells the argument as the result of a nested host call that hands it through.
+func viaCall(a argVal, two bool) argVal {
+	if two {
+		a.Text = "id2('other', " + a.Text + ")"
+	} else {
+		a.Text = "idf(" + a.Text + ")"
+	}
+	return a
+}
+
 var (
 	aNull = argVal{Text: "null", Kind: "null"}
 	aTrue = argVal{Text: "true", Kind: "bool", Bool: true}
@@ -77,6 +87,9 @@ func c11Data(fn *spec.Fn, rec *spec.Recorder) map[string]interface{} {
 		"m":     map[string]interface{}{"a": "x", "b": "y"},
 		"t":     c11Time,
 		"rec":   (&spec.Fn{Name: "rec", Params: []string{"int"}, Ret: "arg0"}).Build(rec),
+		// echo functions: arguments that are themselves calls with arguments (nested call frames)
+		"idf": (&spec.Fn{Name: "idf", Params: []string{"any"}, Ret: "arg0"}).Build(rec),
+		"id2": (&spec.Fn{Name: "id2", Params: []string{"any", "any"}, Ret: "arg1"}).Build(rec),
 	}
 }
 
@@ -401,10 +414,21 @@ func checkCall(c callCase) (msg string, v string) {
 				ctx2 := context.WithValue(context.Background(), ctxMark{}, token2)
 				n0 := len(rec.Calls)
 				out2 := obs.Eval(r, ctx2, p.Src.Expression)
-				if out2.Panic != nil || out2.Err != nil || len(rec.Calls) != n0+1 {
-					return fmt.Sprintf("%s with %s: a second Resolve on the same runner gave %s with %d further invocations, the first %s", text, sig, out2, len(rec.Calls)-n0, out), v
+				var second []spec.Call
+				for _, cl := range rec.Calls[n0:] {
+					if cl.Name == fn.Name {
+						second = append(second, cl)
+					}
 				}
-				if c2 := rec.Calls[n0].Ctx; c2 == nil || c2.Value(ctxMark{}) != token2 {
+				if out2.Panic != nil || out2.Err != nil || len(second) != 1 {
+					return fmt.Sprintf("%s with %s: a second Resolve on the same runner gave %s with %d further invocations, the first %s", text, sig, out2, len(second), out), v
+				}
+				for i := range flat {
+					if !matchArg(second[0].Args[i], flat[i], ptypes[i], data) {
+						return fmt.Sprintf("%s with %s: on the second Resolve of the same runner argument %d was received as %s (%T), want %s converted to %s", text, sig, i+1, obs.Show(second[0].Args[i]), second[0].Args[i], flat[i].Text, ptypes[i]), v
+					}
+				}
+				if c2 := second[0].Ctx; c2 == nil || c2.Value(ctxMark{}) != token2 {
 					return fmt.Sprintf("%s with %s: on the second Resolve of the same runner, called with another context, the function received context %v instead of the second caller's (value %q)", text, sig, c2, token2), v
 				}
 			}
@@ -465,6 +489,7 @@ var c11Args = []argVal{
 	aStr("s"), aStr(""), aStr("12"), aStr("2024-01-02T03:04:05Z"), aStr("1e3"), aStr("null"),
 	aArr(), aArr(aNum("1", "1"), aNum("2", "2")), aArr(aStr("a"), aStr("b")), aArr(aNum("1", "1"), aStr("a")), aArr(aArr(aNum("1", "1"))), aArr(aNum("2.7", "27/10"), aNum("(-2.7)", "-27/10")), aArr(aNull),
 	aMap, aTime,
+	viaCall(aNum("3", "3"), false), viaCall(aStr("s"), true), viaCall(aArr(aNum("1", "1"), aNum("2", "2")), true), viaCall(aNull, false),
 }
 
 func callNontrivial(c callCase, v string) bool {
@@ -541,7 +566,7 @@ func TestC11Exhaustive(t *testing.T) {
 
 // TestC11Random: up to 4 parameters, longer argument lists, error results.
 func TestC11Random(t *testing.T) {
-	run := h.Begin("C11", "random", "rapid: signatures of 0-4 parameters (optional context, optional variadic tail, error result), argument lists of length 0..n+2 over all argument values (numbers inside every integer type's range, fractions, negatives, strings, arrays of numbers/strings/mixed/nested/null, a map, a time, null), with and without spread; same oracle; a returned error must abort evaluation with an error naming the function; distinct by (signature, arguments)")
+	run := h.Begin("C11", "random", "rapid: signatures of 0-4 parameters (optional context, optional variadic tail, error result), argument lists of length 0..n+2 over all argument values (numbers inside every integer type's range, fractions, negatives, strings, arrays of numbers/strings/mixed/nested/null, a map, a time, null; 1 in 5 handed through a nested echo call with one or two arguments), with and without spread; same oracle; a returned error must abort evaluation with an error naming the function; distinct by (signature, arguments)")
 	defer run.End(t)
 	h.RapidSetup(h.N(8000, 3000000), "c11rand")
 	rapid.Check(t, func(rt *rapid.T) {
@@ -571,7 +596,11 @@ func TestC11Random(t *testing.T) {
 			if len(cand) == 0 {
 				cand = c11Args
 			}
-			c.Args = append(c.Args, rapid.SampledFrom(cand).Draw(rt, "arg"))
+			a := rapid.SampledFrom(cand).Draw(rt, "arg")
+			if !strings.Contains(a.Text, "id") && rapid.IntRange(0, 4).Draw(rt, "nested") == 0 {
+				a = viaCall(a, rapid.Bool().Draw(rt, "two")) // the argument arrives through a nested call with arguments
+			}
+			c.Args = append(c.Args, a)
 		}
 		if c.Spread && na == 0 {
 			c.Spread = false
